@@ -1,13 +1,21 @@
 #!/bin/bash
-# build (cached under /verif/build/witness) and run the witness program against $VERIF_REPO (default /repo)
+# build (cached under /verif/build/witness-<hash of repo path>) and run the witness program against $VERIF_REPO (default /repo)
 set -e
 REPO=${VERIF_REPO:-/repo}
 V=$(cd "$(dirname "$0")/.." && pwd)
-W=$V/build/witness
+H=$(echo -n "$REPO" | md5sum | cut -c1-8)
+W=$V/build/witness-$H
 mkdir -p $W
-rsync -a --delete $V/witness/src $W/
-sed "s#@REPO@#$REPO#" $V/witness/Cargo.toml.in > $W/Cargo.toml
-cp $REPO/Cargo.lock $W/Cargo.lock 2>/dev/null || true
-cd $W
-CARGO_NET_OFFLINE=true cargo build --offline -q 2>$W/build.log || { tail -30 $W/build.log >&2; exit 3; }
-exec ./target/debug/witness "$@"
+(
+  flock 9
+  rsync -a --delete $V/witness/src $W/
+  sed "s#@REPO@#$REPO#" $V/witness/Cargo.toml.in > $W/Cargo.toml
+  cp $REPO/Cargo.lock $W/Cargo.lock 2>/dev/null || true
+  cd $W
+  CARGO_NET_OFFLINE=true cargo build --offline -q 2>$W/build.log || { tail -30 $W/build.log >&2; exit 3; }
+  cp $W/target/debug/witness $W/witness.bin
+) 9>$W/.lock
+case "$REPO" in
+  /repo) exec $W/witness.bin "$@" ;;
+  *) cp $W/witness.bin $W.bin; rm -rf $W; $W.bin "$@"; rc=$?; rm -f $W.bin; exit $rc ;;
+esac
